@@ -873,6 +873,8 @@ fn judge_emit(e: &E, pos: Pos, pil: bool) -> (Option<Fail>, Option<&'static str>
     let src = program(&[(b, top)]);
     match emit_src(&src) {
         Ok(_) => (None, None),
+        // the checker itself rejects the program: leg 1 reports that
+        Err((class, _)) if class == "typecheck" => (None, None),
         Err((class, full)) => {
             let mut bl = Vec::new();
             blockers(e, pil, &mut bl);
